@@ -26,6 +26,19 @@ Open Scope string_scope.
 Fixpoint patch1 (l : list decl) (i : nat) (d : decl) : list decl :=
   match l, i with [] , _ => [] | _ :: r, O => d :: r | x :: r, S k => x :: patch1 r k d end.
 Definition patch (l : list decl) (ps : list (nat * decl)) : list decl := fold_left (fun acc p => patch1 acc (fst p) (snd p)) ps l.
+Fixpoint set_nth {A} (i : nat) (x : A) (l : list A) : list A :=
+  match l, i with [], _ => [] | _ :: r, O => x :: r | y :: r, S k => y :: set_nth k x r end.
+Definition patch_field (i : nat) (f : field) (d : decl) : decl :=
+  match d with
+  | DStruct st => DStruct {| s_name := s_name st; s_disp := s_disp st; s_fields := set_nth i f (s_fields st); s_factory_type := s_factory_type st;
+                             s_attrs := s_attrs st; s_comment := s_comment st; s_requires_unaligned := s_requires_unaligned st |}
+  | _ => d
+  end.
+Fixpoint map_nth {A} (i : nat) (g : A -> A) (l : list A) : list A :=
+  match l, i with [], _ => [] | y :: r, O => g y :: r | y :: r, S k => y :: map_nth k g r end.
+(* whole-declaration patches, then single-member patches (declaration index, member index, member) *)
+Definition patch2 (l : list decl) (ps : list (nat * decl)) (fs : list (nat * nat * field)) : list decl :=
+  fold_left (fun acc p => map_nth (fst (fst p)) (patch_field (snd (fst p)) (snd p)) acc) fs (patch l ps).
 Definition sep : string := nl ++ "@@" ++ nl.
 Definition run2 (pre post : list decl) : string := render_result (validate Pre pre) ++ sep ++ render_result (validate Post post).
 Definition run1 (pre : list decl) : string := render_result (validate Pre pre) ++ sep ++ "none".
@@ -549,7 +562,7 @@ class Impl:
 
 	def run_descriptors(self, descriptors, want_terms=True):
 		"""both stages the way __main__ runs them (the second stage is also run after a first stage with errors, when expansion succeeds)"""
-		result = {'pre_decls': [astdump.coq_decl(d) for d in descriptors] if want_terms else None}
+		result = {'pre_decls': [decl_parts(d) for d in descriptors] if want_terms else None}
 		result['pre'] = self.stage(descriptors, self.validator.Mode.PRE_EXPANSION)
 		processor = self.processor(descriptors)
 		try:
@@ -563,7 +576,7 @@ class Impl:
 			result['expand'] = f'crash:{type(ex).__name__}'
 		if result['expand'] == 'ok':
 			try:
-				result['post_decls'] = [astdump.coq_decl(d) for d in descriptors] if want_terms else None
+				result['post_decls'] = [decl_parts(d) for d in descriptors] if want_terms else None
 			except Exception as ex:  # pylint: disable=broad-except
 				result['expand'] = f'crash:undumpable:{type(ex).__name__}'
 		if result['expand'] == 'ok':
@@ -575,6 +588,18 @@ class Impl:
 
 	def run_text(self, text):
 		return self.run_descriptors(self.parse_text(text))
+
+
+def decl_parts(descriptor):
+	"""(Gallina term of the declaration, the same with the member list cut out, member terms) -- the last two None unless a struct"""
+	text = astdump.coq_decl(descriptor)
+	if type(descriptor).__name__ != 'Struct':
+		return (text, None, None)
+	fields = [astdump.coq_field(f) for f in descriptor.fields]
+	listing = '[' + '; '.join(fields) + ']'
+	if text.count(listing) != 1:
+		return (text, None, None)
+	return (text, text.replace(listing, '@FIELDS@'), fields)
 
 
 def canon_errors(errors):
@@ -691,17 +716,29 @@ PROBES = [
 # model side
 
 def model_expr(base, variants):
-	"""base / variants: impl results (pre_decls, post_decls); one Coq expression for a schema and all its broken variants"""
-	lines = ['(let b := [' + ';\n '.join(base['pre_decls']) + '] in']
+	"""base / variants: impl results (pre_decls, post_decls); one Coq expression (a list of strings) for a schema and all its broken variants"""
+	def listing(decls):
+		return '[' + ';\n '.join(d[0] for d in decls) + ']'
+
+	lines = ['(let b := ' + listing(base['pre_decls']) + ' in']
 	if base['post_decls'] is not None:
-		lines.append(' let bp := [' + ';\n '.join(base['post_decls']) + '] in')
+		lines.append(' let bp := ' + listing(base['post_decls']) + ' in')
 	runs = []
 
 	def patched(name, reference, decls):
 		if reference is None or len(reference) != len(decls):
-			return '[' + ';\n '.join(decls) + ']'
-		patches = [f'({i}%nat, {d})' for i, (r, d) in enumerate(zip(reference, decls)) if r != d]
-		return name if not patches else f'(patch {name} [' + ';\n '.join(patches) + '])'
+			return listing(decls)
+		whole, members = [], []
+		for index, (old, new) in enumerate(zip(reference, decls)):
+			if old[0] == new[0]:
+				continue
+			if old[1] is not None and old[1] == new[1] and len(old[2]) == len(new[2]):
+				members += [f'({index}%nat, {k}%nat, {g})' for k, (f, g) in enumerate(zip(old[2], new[2])) if f != g]
+			else:
+				whole.append(f'({index}%nat, {new[0]})')
+		if not whole and not members:
+			return name
+		return f'(patch2 {name} [' + ';\n '.join(whole) + '] [' + ';\n '.join(members) + '])'
 
 	for result in [base] + variants:
 		pre = patched('b', base['pre_decls'], result['pre_decls'])
@@ -810,9 +847,16 @@ def run(check, unrecognised):
 		_run_cases(check, impl)
 	finally:
 		impl.close()
-	# at most five replays are written: the crashes first (D5 signatures first), then the false errors
+	# at most five replays are written: the crashes first (D5 signatures first), the expansion-related false errors last
 	order = ['validator-crash:sizeof-target-of-unknown-type', 'validator-crash:sort-key-on-int-array', 'validator-crash:sort-key-on-alias-array']
-	check.failures.sort(key=lambda f: (order.index(f.signature) if f.signature in order else len(order) + (0 if f.signature.startswith('validator-crash') else 1)))
+
+	def priority(finding):
+		if finding.signature in order:
+			return order.index(finding.signature)
+		if finding.signature.startswith('validator-crash'):
+			return len(order)
+		return len(order) + (2 if 'template' in finding.signature else 1)
+	check.failures.sort(key=priority)
 
 
 _WORKER = {}
@@ -900,13 +944,20 @@ def _run_cases(check, impl):
 			cli_cases.append(full[0])
 			cli_cases += full[1:][:: max(1, len(full) // 3)][:3]
 
-	models = eval_groups(exprs, 'c06', 4 if check.tier == 'quick' else 20)
+	try:
+		models = eval_groups(exprs, 'c06', 4 if check.tier == 'quick' else 20)
+	except RuntimeError as ex:
+		# the regenerated model could not be evaluated (possible only on a changed tree): the tie is broken, the oracle still runs
+		check.broken.append('correspondence:model-evaluation-failed')
+		check.notes.append(str(ex)[-1500:])
+		models = [None] * len(groups)
 	sampled = 0
 	for (name, items), parts in zip(groups, models):
-		pairs = split_model(parts)
+		pairs = split_model(parts) if parts is not None else [None] * len(items)
 		base_problem = None
 		for (case_id, schema, result, site, flags), pair in zip(items, pairs):
-			compare(check, 'Validate-model-vs-AstValidator', case_id, result, pair, schema)
+			if pair is not None:
+				compare(check, 'Validate-model-vs-AstValidator', case_id, result, pair, schema)
 			if site is None:
 				problem = base_problem = oracle_consistent(result, flags)
 			else:
